@@ -319,13 +319,18 @@ fn gen_format4_at(rng: &mut Rng, p: &mut Vec<u32>, base: Option<u32>) -> Vec<u8>
             _ if base.is_some() => rng.below(12) as u32,
             _ => rng.below(0x3000) as u32,
         };
-        let size = match rng.below(8) {
-            0 => 1,
-            1 => 2,
-            2 => 1 + rng.below(600) as u32,
+        let size = match rng.below(16) {
+            0 | 1 => 1,
+            2 | 3 => 2,
+            4 | 5 => 1 + rng.below(600) as u32,
+            // boundary: segments as long as a u16 count can (not) express, up to the whole code space
+            6 => *rng.pick(&[0x10000u32, 0xFFFF, 0x8000, 0x8001, 0x7FFF, 0x100, 0xFF]),
             _ => 1 + rng.below(24) as u32,
         };
-        let s = (cur + gap).min(0xFFFF);
+        if size >= 0x7FFF && rng.chance(1, 2) {
+            cur = 0;
+        }
+        let s = if size >= 0x7FFF { cur.min(0xFFFF) } else { (cur + gap).min(0xFFFF) };
         let e = (s + size - 1).min(0xFFFF);
         starts.push(s);
         ends.push(e);
